@@ -1,5 +1,6 @@
 import Tup.Props.C07
 import Tup.Lemmas.PhStream
+import Tup.Lemmas.PhScrollChoreo
 /-!
   C13 — each placeholder line is self-contained and leaves text attributes reset.
 
@@ -83,6 +84,77 @@ theorem formatting_confined_at_cursor (save : Bool) (t : Term) (p : Placeholder)
       (t.feedAll (streamToks (.atCursor save false) (p.endCol - p.startCol) (p.lineToksAll m fmt))).cells y x = t.cells y x :=
   (C07.choreography_at_cursor_noscroll save t p m fmt hp hm hsc hfmt hw hrows hbot hcub).2.2.1
 
+/-- **`formatting_confined`** for a complete output in the cursor-relative styles (save/restore or relative movement) WITH
+    scrolling: default scroll margins, any screen size, any prior content, any start row, any number of rows.  With
+    `s = max 0 (y0 + R - H)` lines scrolled, every cell outside the (moved-up) rectangle is exactly the OLD cell `s` rows
+    further down — character, colours and background unchanged, merely shifted — or a default blank (no background)
+    where a line scrolled in: the caller's background is carried by cells of the rectangle only. -/
+theorem formatting_confined_at_cursor_scroll (save : Bool) (t : Term) (p : Placeholder) (m : Mode) (fmt : FmtT)
+    (hp : p.valid = true) (hm : m.valid = true) (hsc : p.startCol < 297) (hfmt : BgOnly fmt)
+    (hw : t.cx + (p.endCol - p.startCol) ≤ t.w)
+    (htop : t.top = 0) (hbot : t.bot = t.h - 1) (hcy : t.cy < t.h)
+    (hcub : save = false → (t.cfg.cubFromW = true ∨ t.cx + (p.endCol - p.startCol) < t.w)) :
+    let t' := t.feedAll (streamToks (.atCursor save false) (p.endCol - p.startCol) (p.lineToksAll m fmt))
+    let s := t.cy + (p.endRow - p.startRow) - t.h
+    ∀ y x, y < t.h →
+      ¬ (t.cy ≤ y + s ∧ y + s < t.cy + (p.endRow - p.startRow) ∧ t.cx ≤ x ∧ x < t.cx + (p.endCol - p.startCol)) →
+      t'.cells y x = if y + s < t.h then t.cells (y + s) x else Cell.blank :=
+  (C07.choreography_at_cursor save t p m fmt hp hm hsc hfmt hw htop hbot hcy hcub).2.2.1
+
+/-- **`formatting_confined`** for `to_stream_at_cursor(use_line_feeds=True)` through the tty's ONLCR (scrolling included): every
+    cell that is not a cell of one of the lines (line 0 from the cursor column, the others from column 0) is the old cell
+    `s = max 0 (y0 + R - H)` rows further down, or a default blank where a line scrolled in. -/
+theorem formatting_confined_at_cursor_linefeeds (save : Bool) (t : Term) (p : Placeholder) (m : Mode) (fmt : FmtT)
+    (hp : p.valid = true) (hm : m.valid = true) (hsc : p.startCol < 297) (hfmt : BgOnly fmt)
+    (hw : t.cx + (p.endCol - p.startCol) ≤ t.w)
+    (htop : t.top = 0) (hbot : t.bot = t.h - 1) (hcy : t.cy < t.h) :
+    let t' := t.feedAll (onlcr (streamToks (.atCursor save true) (p.endCol - p.startCol) (p.lineToksAll m fmt)))
+    let s := t.cy + (p.endRow - p.startRow) - t.h
+    let c := fun i => if i = 0 then t.cx else 0
+    ∀ y x, y < t.h →
+      (¬ ∃ i < p.endRow - p.startRow, y + s = t.cy + i ∧ c i ≤ x ∧ x < c i + (p.endCol - p.startCol)) →
+      t'.cells y x = if y + s < t.h then t.cells (y + s) x else Cell.blank :=
+  (C07.choreography_linefeeds_at_cursor save t p m fmt hp hm hsc hfmt hw htop hbot hcy).2.2.1
+
+/-- **`formatting_confined`** for `to_stream_with_linefeeds` through the tty's ONLCR (scrolling included; `s = max 0 (y0 + R + 1 - H)`
+    because the last line is followed by a line feed too). -/
+theorem formatting_confined_linefeeds (t : Term) (p : Placeholder) (m : Mode) (fmt : FmtT)
+    (hp : p.valid = true) (hm : m.valid = true) (hsc : p.startCol < 297) (hfmt : BgOnly fmt)
+    (hw : t.cx + (p.endCol - p.startCol) ≤ t.w)
+    (htop : t.top = 0) (hbot : t.bot = t.h - 1) (hcy : t.cy < t.h) :
+    let t' := t.feedAll (onlcr (linefeedToks (p.lineToksAll m fmt)))
+    let s := t.cy + (p.endRow - p.startRow) + 1 - t.h
+    let c := fun i => if i = 0 then t.cx else 0
+    ∀ y x, y < t.h →
+      (¬ ∃ i < p.endRow - p.startRow, y + s = t.cy + i ∧ c i ≤ x ∧ x < c i + (p.endCol - p.startCol)) →
+      t'.cells y x = if y + s < t.h then t.cells (y + s) x else Cell.blank :=
+  (C07.choreography_linefeeds t p m fmt hp hm hsc hfmt hw htop hbot hcy).2.2.1
+
+/-- **`ends_default`** for what the terminal really receives from a tty (ONLCR applied), any style, any formatting, any
+    terminal state: the colours are default after the complete output … -/
+theorem ends_default_onlcr (t : Term) (p : Placeholder) (m : Mode) (fmt : FmtT) (st : Style) (hrows : p.startRow < p.endRow) :
+    (t.feedAll (onlcr (streamToks st (p.endCol - p.startCol) (p.lineToksAll m fmt)))).sgr = {} := by
+  rw [lineToksAll_ne_nil p m fmt hrows]
+  obtain ⟨pre, h⟩ := streamToks_snoc st (p.endCol - p.startCol)
+    ((List.range' p.startRow (p.endRow - p.startRow - 1)).map (lineToks p m fmt)) (lineToks p m fmt (p.endRow - 1))
+  obtain ⟨pre', h'⟩ := lineToks_ends_reset p m fmt (p.endRow - 1)
+  have hr : onlcr [sgrReset] = [sgrReset] := rfl
+  rw [h, h', onlcr_append, onlcr_append, hr, ← List.append_assoc]
+  exact feedAll_ends_reset t _
+
+/-- … and after `to_stream_with_linefeeds` through ONLCR. -/
+theorem ends_default_linefeeds_onlcr (t : Term) (p : Placeholder) (m : Mode) (fmt : FmtT) (hrows : p.startRow < p.endRow) :
+    (t.feedAll (onlcr (linefeedToks (p.lineToksAll m fmt)))).sgr = {} := by
+  rw [lineToksAll_ne_nil p m fmt hrows]
+  obtain ⟨pre', h'⟩ := lineToks_ends_reset p m fmt (p.endRow - 1)
+  have hr : onlcr ([sgrReset] ++ [Tok.c0 10]) = [sgrReset] ++ [Tok.c0 13, Tok.c0 10] := rfl
+  simp only [linefeedToks, List.flatMap_append, List.flatMap_cons, List.flatMap_nil, List.append_nil]
+  rw [h', List.append_assoc pre', onlcr_append, onlcr_append, hr, feedAll_append, feedAll_append, feedAll_append]
+  show (Term.index _).sgr = {}
+  rw [index_sgr]
+  have key : ∀ u : Term, ((u.feedAll [sgrReset]).feed (Tok.c0 13)).sgr = {} := fun u => feed_reset_sgr u
+  exact key _
+
 /-- the formatting the display path produces is background-only, so the theorems above apply to it -/
 theorem display_formatting_bgOnly (b : Background) : BgOnly (getFormattingT b) := getFormattingT_bgOnly b
 
@@ -92,11 +164,40 @@ example : (⟨255, 0, 0, 296, 3, 298⟩ : Placeholder).valid = true ∧ BgOnly (
   ⟨by decide, ⟨fun _ t ht => by simp [FmtT.rowT] at ht; exact Or.inl ⟨3, ht⟩, fun _ _ t ht => by simp [FmtT.cellT] at ht⟩,
    fun _ => by simp [Term.init, Cell.blank, placeholderChar]⟩
 
+/-- hypotheses of the scrolling / line-feed confinement theorems satisfiable, with a background: the hand-checked case of
+    DESIGN.md §5 C07 (4 rows × 3 columns from column 17, row 3 of a 20 × 6 screen) with the display path's background 3 … -/
+example :
+    let t : Term := { Term.init 20 6 with cx := 17, cy := 3 }
+    let p : Placeholder := ⟨255, 0, 0, 0, 3, 4⟩
+    p.valid = true ∧ (displayMode false).valid = true ∧ p.startCol < 297 ∧ BgOnly (getFormattingT (.idx 3)) ∧
+    t.cx + (p.endCol - p.startCol) ≤ t.w ∧ t.top = 0 ∧ t.bot = t.h - 1 ∧ t.cy < t.h :=
+  ⟨by decide, by decide, by decide, getFormattingT_bgOnly _, by decide, rfl, rfl, by decide⟩
+
+/-- … on which the specification terminal, evaluated directly, shows the background 3 on exactly the 12 cells of the moved-up
+    rectangle (rows 2–5, columns 17–19) in the save/restore and relative styles, and on exactly the cells of the four lines
+    in both line-feed styles. -/
+example :
+    let t : Term := { Term.init 20 6 with cx := 17, cy := 3 }
+    let p : Placeholder := ⟨255, 0, 0, 0, 3, 4⟩
+    let lines := p.lineToksAll (displayMode false) (getFormattingT (.idx 3))
+    (∀ save : Bool, ∀ y < 6, ∀ x < 20,
+      ((t.feedAll (streamToks (.atCursor save false) 3 lines)).cells y x).bg =
+        if 2 ≤ y ∧ 17 ≤ x then some (.idx 3) else none) ∧
+    (∀ y < 6, ∀ x < 20,
+      ((t.feedAll (onlcr (streamToks (.atCursor true true) 3 lines))).cells y x).bg =
+        if (y = 2 ∧ 17 ≤ x) ∨ (3 ≤ y ∧ x < 3) then some (.idx 3) else none) ∧
+    (∀ y < 6, ∀ x < 20,
+      ((t.feedAll (onlcr (linefeedToks lines))).cells y x).bg =
+        if (y = 1 ∧ 17 ≤ x) ∨ (2 ≤ y ∧ y ≤ 4 ∧ x < 3) then some (.idx 3) else none) := by
+  decide +kernel
+
 /-
-  Stream-level confinement when the output scrolls the screen, and for the line-feed styles, needs the remaining part of
-  the choreography of C07(C); TODO (`formatting_confined_abs` and `formatting_confined_at_cursor` cover the absolute style
-  and the non-scrolling cursor-relative styles).  The per-line statement above is its induction step:
-  between two lines the SGR state is default (`line_resets`), so cells created by `ESC D` / LF scrolling are default blanks.
+  Stream-level confinement is now proved for every style: `formatting_confined_abs`, `formatting_confined_at_cursor` (no
+  scrolling, any scroll margins), `formatting_confined_at_cursor_scroll` (scrolling, default margins) and the two line-feed
+  styles through ONLCR (`formatting_confined_at_cursor_linefeeds`, `formatting_confined_linefeeds`); they are the frame
+  conditions of the C07(C) choreography theorems.  Cells created by `ESC D` / LF scrolling are default blanks in
+  `Spec.Term` whatever the SGR state (and the state between two lines is default anyway, `line_resets`).
+  Not claimed: non-default scroll margins while scrolling, line feeds without ONLCR.
 -/
 
 end Tup.C13
